@@ -32,6 +32,8 @@ def main():
             import check_rib as M
         elif a.prop == 'C11':
             import check_decoders as M
+        elif a.prop == 'C15':
+            import check_compose as M
         elif a.prop in ('C06', 'C07', 'C08', 'C09', 'C14', 'C17'):
             import check_codec as M
         else:
